@@ -22,7 +22,7 @@ Definition structure : Type :=
    * list (jkey * Q)                               (* sampled joint maps with their coefficients, coefficient order *)
    * list (list nat)                               (* per partition (order of the sub-observables): cut ids of its halves *)
    * list (list nat * list (list (nat * nat)))     (* per partition: members per group, lookup locations per observable *)
-   * list nat                                      (* per partition: number of subexperiments generated *)
+   * list N                                        (* per partition: number of subexperiments generated *)
    * nat                                           (* number of observables *)
    * (Q * Q * Q)                                   (* cut-off bracket lo, hi and coefficient tolerance *)
    * bool)%type.                                   (* harness: bases of the halves match `bases`, values agree with the oracle *)
